@@ -48,8 +48,10 @@ CHECK_DEADLOCK FALSE
 """
 
 INV_STRICT = "TypeOK NoRace MutexOK NoNilMeta NoDeadlock Isolated HeldCoversRequired EmitVec EmitOut OutcomeKnown"
+INV_STRICT3 = "NoRace NoNilMeta NoDeadlock Isolated HeldCoversRequired EmitVec EmitOut OutcomeKnown"
 INV_K = "TypeOK NoRaceExceptDev MutexOK NoNilMeta NoDeadlock HeldCoversRequired EmitOut OutcomeKnown EmitRaces"
 TRIPLE = ["dog", "stray", "anydog", "pet"]
+TRIPLE3 = ["dog", "stray", "anydog"]
 
 TRACE_CFG = """SPECIFICATION TSpec
 CONSTANTS
@@ -82,10 +84,10 @@ def mixkey(w, mix):
     return w + "|" + json.dumps([m for m in mix])
 
 
-def model(ctx, g, plan, devs, kplan=None, ktriple=TRIPLE):
+def model(ctx, g, plan, devs, kplan=None, ktriple=TRIPLE, invs=None, triple=TRIPLE, with_k=True):
     """Run M({}) over the plan and M(K) over kplan (default: the same); returns the export, the vectors (with the
     outcomes M(K) allows besides S's) and M(K)'s racing pairs.  A mix M(K) was not run on gets no alternative."""
-    a = vlib.run_tlc(ctx, "MCLazyBind", cfg(g, [], plan, INV_STRICT), timeout=1500)
+    a = vlib.run_tlc(ctx, "MCLazyBind", cfg(g, [], plan, invs or INV_STRICT, triple=triple), timeout=1500)
     vlib.require_clean(a, "LazyBind Dev={} %s G=%d" % (plan, g))
     exp = (a.mark("@@UNI") or [None])[0]
     uexec = (a.mark("@@UEXEC") or [None])[0]
@@ -100,7 +102,7 @@ def model(ctx, g, plan, devs, kplan=None, ktriple=TRIPLE):
         if v is None or v["exp"] != o["out"]:
             raise vlib.MachineryError("M({}) produced outcomes %s that S does not prescribe for %s" % (o["out"], o["mix"]))
     races = []
-    if devs:
+    if devs and with_k:
         b = vlib.run_tlc(ctx, "MCLazyBind", cfg(g, sorted(devs), kplan or plan, INV_K, triple=ktriple), timeout=1500)
         vlib.require_clean(b, "LazyBind Dev=K %s G=%d" % (plan, g))
         alts = {}
@@ -301,7 +303,22 @@ def trace_validation(ctx, exp, vecs, devs, up, label="trace"):
     if len(strict) != len(traces):
         raise vlib.MachineryError("LazyBindTrace judged %d of %d traces" % (len(strict), len(traces)))
     bad = [i for i, v in strict.items() if not v["ok"]]
-    withk = judge(ctx, out, sorted(devs)) if bad and devs else {}
+    # second oracle: M(K); should K be stale (a listed deviation no longer in the code) the proper subsets of K are tried too
+    from itertools import combinations
+    pending = set(bad)
+    accepted_by, lastk = {}, {}
+    if devs:
+        order = [sorted(devs)] + [list(c) for r in range(1, len(devs)) for c in combinations(sorted(devs), r)]
+        for dset in order:
+            if not pending:
+                break
+            vs = judge(ctx, out, dset)
+            for i in sorted(pending):
+                if vs[i]["ok"]:
+                    accepted_by[i] = dset
+                    pending.discard(i)
+                elif i not in lastk:
+                    lastk[i] = vs[i]
     labels = exp["labels"]
     ctx.traces += len(traces)
     nacc = 0
@@ -310,22 +327,24 @@ def trace_validation(ctx, exp, vecs, devs, up, label="trace"):
         v = strict[i]
         if v["ok"]:
             continue
-        k = withk.get(i)
-        if k and k["ok"]:
-            names = {labels[r["l"]]["dev"] for r in t if r["t"] == "acc" and labels.get(r["l"], {}).get("dev")}
-            sv = next((x for x in seqvecs if x["w"] == t[0]["w"] and x["mix"][0] == t[0]["reqs"]), None)
-            if sv and t[-1].get("outs") != sv["exp"][0]:
-                names.add("LearnedBindingVisible")
-            names = {n for n in names if n in devs} or set(devs)
+        if i in accepted_by:
+            names = set(accepted_by[i])
+            if len(names) == len(devs) and len(devs) > 1:
+                # accepted by M(K) as a whole: name the deviations this log actually shows
+                shown = {labels[r["l"]]["dev"] for r in t if r["t"] == "acc" and labels.get(r["l"], {}).get("dev")}
+                sv = next((x for x in seqvecs if x["w"] == t[0]["w"] and x["mix"][0] == t[0]["reqs"]), None)
+                if sv and t[-1].get("outs") != sv["exp"][0]:
+                    shown.add("LearnedBindingVisible")
+                names = {n for n in shown if n in devs} or names
             for n in sorted(names):
                 hit = "%s: %s" % (n, devs[n]["what"])
                 ctx.known_hits[hit] = ctx.known_hits.get(hit, 0) + 1
             continue
-        if k:
-            v = k
+        v = lastk.get(i, v)
+        first = recs.index(t[0])
         ctx.violations.append({"from": label, "what": "recorded access log is not a behaviour of LazyBind.tla: " + v["why"],
                                "case": {"world": t[0]["w"], "requests": t[0]["reqs"], "record": v["at"],
-                                        "log": t[max(0, v["at"] - recs.index(t[0]) - 6): v["at"] - recs.index(t[0]) + 2]}})
+                                        "log": t[max(0, v["at"] - first - 6): v["at"] - first + 2]}})
     ctx.extra["trace_validation"] = "%d access logs (%d accesses) judged by LazyBindTrace.tla" % (len(traces), nacc)
     return True
 
@@ -408,15 +427,37 @@ def run(ctx):
     for n, r in exp["uni"]["reqs"].items():
         if (len(r["resp"]) > 1) != (n in multi):
             raise vlib.MachineryError("request %s: the list of requests with several prescribed responses is out of date" % n)
+    # what M(K) allows per (world, request) besides S's outcome, over all mixes explored
+    alt = {}
+    for v in vecs:
+        for gi, names in enumerate(v["mix"]):
+            for ri, n in enumerate(names):
+                for o in v["alt"][gi][ri]:
+                    alt.setdefault(v["w"], {}).setdefault(n, set()).add(o)
+
+    def world_level(vs, single_only=True):
+        """vectors whose goroutines send one request each, with the alternatives M(K) allows that request in ANY mix of
+        the world (for runs with several copies of a mix, and for mixes M(K) was not run on)"""
+        out = []
+        for v in vs:
+            if single_only and any(len(m) > 1 for m in v["mix"]):
+                continue
+            w = dict(v)
+            w["alt"] = [[sorted(alt.get(v["w"], {}).get(n, set()) - {v["exp"][gi][ri]}) for ri, n in enumerate(names)]
+                        for gi, names in enumerate(v["mix"])]
+            w["kdev"] = "LearnedBindingVisible" if any(x for row in w["alt"] for x in row) else ""
+            out.append(w)
+        return out
+
+    vecs3 = []
     if not quick:
-        _, _, vecs3, races3 = model(ctx, 3, "TriplePlan", devs)
+        # three goroutines: M({}) only (M(K) cannot add outcomes: every prescribed response of the affected requests
+        # is already allowed by the two-goroutine M(K))
+        _, _, vecs3, _ = model(ctx, 3, "TriplePlan", devs, invs=INV_STRICT3, triple=TRIPLE3, with_k=False)
+        vecs3 = world_level(vecs3, single_only=False)
         r = vlib.run_tlc(ctx, "MCLazyBind", cfg(2, [], "SmallPlan", "TypeOK", spec="MCFairSpec", props="PROPERTIES MCTermination"), timeout=900)
         vlib.require_clean(r, "LazyBind termination under fairness")
         model_mutations(ctx)
-        seen = {(r["a"], r["b"]) for r in races}
-        races += [r for r in races3 if (r["a"], r["b"]) not in seen]
-    else:
-        vecs3 = []
     up = os.path.join(ctx.scratch, "uni.json")
     ep = os.path.join(ctx.scratch, "uexec.json")
     json.dump(exp, open(up, "w"))
@@ -425,10 +466,11 @@ def run(ctx):
     # (2) direction A: every mix free-running on the real code, race-detector build
     conc = [v for v in vecs if sum(1 for m in v["mix"] if m) > 1]
     seq = [v for v in vecs if sum(1 for m in v["mix"] if m) == 1]
-    plans = [("replay-seq", seq, 1, 1), ("replay-pairs", conc, 6 if quick else 60, 1), ("replay-pairs-x8", conc, 2 if quick else 12, 8)]
+    plans = [("replay-seq", seq, 1, 1), ("replay-pairs", conc, 6 if quick else 60, 1),
+             ("replay-pairs-x8", world_level(conc), 2 if quick else 12, 8)]
     if vecs3:
         plans.append(("replay-triples", vecs3, 20, 1))
-        plans.append(("replay-triples-x6", vecs3, 6, 6))
+        plans.append(("replay-triples-x6", world_level(vecs3), 6, 6))
     for label, vs, iters, mult in plans:
         vp = os.path.join(ctx.scratch, "vec-%s.json" % label)
         json.dump(vs, open(vp, "w"))
@@ -438,12 +480,6 @@ def run(ctx):
         absorb(ctx, rep, label, devs)
         absorb_races(ctx, prefix, rep, label, exp, races, devs)
     # (3) free-running stress
-    alt = {}
-    for v in vecs + vecs3:
-        for gi, names in enumerate(v["mix"]):
-            for ri, n in enumerate(names):
-                for o in v["alt"][gi][ri]:
-                    alt.setdefault(v["w"], {}).setdefault(n, set()).add(o)
     kp = os.path.join(ctx.scratch, "kouts.json")
     json.dump({"kdev": "LearnedBindingVisible", "alt": {w: {n: sorted(s) for n, s in d.items()} for w, d in alt.items()}}, open(kp, "w"))
     prefix, env = race_env(ctx, "stress")
